@@ -361,7 +361,7 @@
     /// and system words keep dictionary 0.
     #[test]
     fn verif_oracle_second_user_dictionary_units() {
-        if !want("C12") { return; }
+        if !want("C12") && !want("C11") { return; }     // C11: boundaries and word identities under restricted field requests
         let mut cfgb = ConfigTestSupport::new();
         let mut dic = DictBuilder::new_system();
         dic.read_conn(super::super::MATRIX_10_10).unwrap();
@@ -412,6 +412,74 @@
             }
         }
         println!("verif_oracle_second_user_dictionary_units: {} failures", failures.len());
+        for f in failures.iter().take(5) { println!("FAILING INPUT: {}", f); }
+        assert!(failures.is_empty());
+    }
+
+    /// C09 with words declaring MORE than two units and several compounds in one text: a dictionary with あいう (A: あ/い/う, B: あい/う),
+    /// えお (A: え/お, no B units), あいうえお (A: five units, B: あいう/えお) and the unsplittable の.  Every text of up to 4 pieces is
+    /// analysed in mode C; in modes A and B every C token that declares units must be replaced by exactly those units, in order, tiling
+    /// its range, and every other token must be reported unchanged.
+    #[test]
+    fn verif_oracle_multi_unit_splits() {
+        if !want("C09") { return; }
+        let pos = "名詞,普通名詞,一般,*,*,*";
+        let mut lex = String::new();
+        for (k, c) in [("あ", 3000), ("い", 3000), ("う", 3000), ("え", 3000), ("お", 3000), ("の", 3000), ("あい", 2000)] { lex.push_str(&format!("{},8,8,{},{},{},{},{},*,A,*,*,*,*\n", k, c, k, pos, k, k)); }
+        lex.push_str(&format!("あいう,8,8,-2000,あいう,{},あいう,あいう,*,C,0/1/2,6/2,*,*\n", pos));
+        lex.push_str(&format!("えお,8,8,-2000,えお,{},えお,えお,*,C,3/4,*,*,*\n", pos));
+        lex.push_str(&format!("あいうえお,8,8,-9000,あいうえお,{},あいうえお,あいうえお,*,C,0/1/2/3/4,7/8,*,*\n", pos));
+        lex.push_str("五,9,9,2478,五,名詞,数詞,*,*,*,*,ゴ,五,*,A,*,*,*,*\n");
+        let mut cfgb = ConfigTestSupport::new();
+        let mut dic = DictBuilder::new_system();
+        dic.read_conn(super::super::MATRIX_10_10).unwrap();
+        dic.read_lexicon(lex.as_bytes()).unwrap();
+        dic.resolve().unwrap();
+        dic.compile(&mut cfgb.make_system()).unwrap();
+        let jd = JapaneseDictionary::from_cfg(&cfgb.config()).unwrap();
+        let units = |surface: &str, mode: Mode| -> Option<Vec<&'static str>> {
+            match (surface, mode) {
+                ("あいう", Mode::A) => Some(vec!["あ", "い", "う"]), ("あいう", Mode::B) => Some(vec!["あい", "う"]),
+                ("えお", Mode::A) => Some(vec!["え", "お"]),
+                ("あいうえお", Mode::A) => Some(vec!["あ", "い", "う", "え", "お"]), ("あいうえお", Mode::B) => Some(vec!["あいう", "えお"]),
+                _ => None,
+            }
+        };
+        let pieces = ["あいう", "えお", "の", "あいうえお", "あ"];
+        let mut texts: Vec<String> = Vec::new();
+        let mut frontier = vec![String::new()];
+        for _ in 0..4 {
+            let mut nf = Vec::new();
+            for t in &frontier { for c in pieces.iter() { let mut s = t.clone(); s.push_str(c); nf.push(s); } }
+            texts.extend(nf.iter().cloned());
+            frontier = nf;
+        }
+        let run = |t: &str, mode: Mode| -> Result<Vec<(usize, usize, String, u32)>, String> {
+            std::panic::catch_unwind(std::panic::AssertUnwindSafe(|| {
+                let mut tok = StatefulTokenizer::new(&jd, mode);
+                tok.reset().push_str(t);
+                tok.do_tokenize().map(|_| { let mut ms = MorphemeList::empty(&jd); ms.collect_results(&mut tok).unwrap(); ms.iter().map(|m| (m.begin(), m.end(), m.surface().to_string(), m.word_id().as_raw())).collect::<Vec<_>>() }).map_err(|e| format!("{:?}", e))
+            })).unwrap_or_else(|_| Err("panic".to_string()))
+        };
+        let mut failures: Vec<String> = Vec::new();
+        for t in texts.iter() {
+            let c = match run(t, Mode::C) { Ok(x) => x, Err(e) => { if failures.len() < 20 { failures.push(format!("C09: mode C analysis of {:?} fails: {}", t, e)); } continue; } };
+            for mode in [Mode::A, Mode::B] {
+                let got = match run(t, mode) { Ok(x) => x, Err(e) => { if failures.len() < 20 { failures.push(format!("C09: mode {:?} analysis of {:?} fails: {}", mode, t, e)); } continue; } };
+                let mut want: Vec<(usize, usize, String)> = Vec::new();
+                let mut unchanged: Vec<(usize, usize, String, u32)> = Vec::new();
+                for k in c.iter() {
+                    match units(&k.2, mode) {
+                        Some(us) => { let mut p = k.0; for u in us { want.push((p, p + u.len(), u.to_string())); p += u.len(); } }
+                        None => { want.push((k.0, k.1, k.2.clone())); unchanged.push(k.clone()); }
+                    }
+                }
+                let got3: Vec<(usize, usize, String)> = got.iter().map(|k| (k.0, k.1, k.2.clone())).collect();
+                if got3 != want && failures.len() < 20 { failures.push(format!("C09: {:?} in mode {:?}: tokens {:?}, the mode C tokens {:?} with their declared units give {:?}", t, mode, got3, c.iter().map(|k| k.2.clone()).collect::<Vec<_>>(), want)); }
+                for k in unchanged.iter() { if !got.contains(k) && failures.len() < 20 { failures.push(format!("C09: {:?} in mode {:?}: the token {:?} declares no units but is not reported unchanged", t, mode, k)); } }
+            }
+        }
+        println!("verif_oracle_multi_unit_splits: {} texts, {} failures", texts.len(), failures.len());
         for f in failures.iter().take(5) { println!("FAILING INPUT: {}", f); }
         assert!(failures.is_empty());
     }
